@@ -117,7 +117,7 @@ def main(tier, seed, args):
                   'outside': 'more hashes / HTLCs'}
     rep.assumptions = ['node + tokio contracts', 'a frozen RPC is one the node never answers']
     rep.trusted = ['mirsym', 'z3', 'node model', 'tokio contracts']
-    budget = 100 if tier == 'quick' else 1500
+    budget = 400 if tier == 'quick' else 3000
     from .c06 import cfg_symbolic, cfg_concrete
     configs = []
     cfg, pc = cfg_symbolic(2)
